@@ -145,7 +145,7 @@ def gen_cases(rng, tier, budget):
         for h in _structured(proto):
             for cfg in ("4 4 1", "2 2 1"):
                 cases.append("%s %s %s" % (proto, cfg, " ".join(h)))
-    n = budget or (700 if tier == "quick" else 12000)
+    n = budget or (2400 if tier == "quick" else 12000)
     for k in range(n):
         proto = "ipoe" if k % 2 == 0 else "pppoe"
         n4, n6, kpd = rng.choice([2, 3, 4, 6]), rng.choice([2, 3, 4]), rng.choice([1, 2])
